@@ -57,23 +57,24 @@ structure AttObj where
   attStmt : AttStmt
   deriving Repr, Inhabited
 
+def attStmtOf (kvs : List (Cbor × Cbor)) : Except Err AttStmt :=
+  match Cbor.lookupText kvs "attStmt" with
+  | some s => parseAttStmt s
+  | none => .ok AttStmt.empty
+
+def parseAttObjMap (kvs : List (Cbor × Cbor)) : Except Err AttObj := do
+  let fmt ← someOr (Cbor.lookupText kvs "fmt") (nonlibErr "KeyError" "attobj.fmt")
+  let adRaw ← someOr (Cbor.lookupText kvs "authData") (nonlibErr "KeyError" "attobj.authData")
+  let adBytes ← authDataBytesOf adRaw
+  let ad ← parseAuthData adBytes
+  let stmt ← attStmtOf kvs
+  pure { fmt, authDataRaw := adRaw, authData := ad, attStmt := stmt }
+
 /-- `parse_attestation_object` -/
 def parseAttObj (val : Bytes) : Except Err AttObj := do
   let v ← parseCbor val
   match v with
-  | .map kvs =>
-    let fmt ← match Cbor.lookupText kvs "fmt" with
-      | some f => pure f
-      | none => throw (nonlibErr "KeyError" "attobj.fmt")
-    let adRaw ← match Cbor.lookupText kvs "authData" with
-      | some a => pure a
-      | none => throw (nonlibErr "KeyError" "attobj.authData")
-    let adBytes ← authDataBytesOf adRaw
-    let ad ← parseAuthData adBytes
-    let stmt ← match Cbor.lookupText kvs "attStmt" with
-      | some s => parseAttStmt s
-      | none => pure AttStmt.empty
-    pure { fmt, authDataRaw := adRaw, authData := ad, attStmt := stmt }
+  | .map kvs => parseAttObjMap kvs
   | _ => throw (nonlibErr "TypeError" "attobj.not-map")
 
 end Webauthn
